@@ -3,9 +3,8 @@
 From Coq Require Import Reals List Lra.
 From Coq Require Import QArith Qcanon.
 From Coquelicot Require Import Complex.
-From Interval Require Import Tactic.
 From AL Require Import Base.CaseLib C13.Model C13.Spec C13.Check C13.Proofs_Base C13.Proofs_Ord2 C13.Proofs_Reson2
-  C13.Proofs_Comb C13.Proofs_Gamma.
+  C13.Proofs_Comb C13.Proofs_Gamma C13.Proofs_Examples.
 Import ListNotations.
 Open Scope R_scope.
 
@@ -135,11 +134,5 @@ Example C13_reson_comb_instances :
    Rabs (resonator_R (1 / 5) - 0.904837) <= 0.000001) /\
   run (comb_fb 2 (qc 1 2)) [qc 1 1; qc 0 1; qc 0 1; qc 0 1; qc 0 1] = [qc 1 1; qc 0 1; qc 1 2; qc 0 1; qc 1 4] /\
   run (comb_ff 1 (qc (-1) 3)) [qc 1 1; qc 2 1; qc 3 1] = [qc 1 1; qc 5 3; qc 7 3].
-Proof.
-  split.
-  - unfold z_exp_cost, resonator_R. cbv zeta.
-    split; [split; [lra|interval with (i_prec 60)]|]. split; [lra|].
-    split; [split; interval with (i_prec 60)|interval with (i_prec 60)].
-  - split; apply (proj1 (list_eqb_spec Qc_eqb Qc_eqb_spec _ _)); vm_compute; reflexivity.
-Qed.
+Proof. exact reson_comb_instances. Qed.
 Print Assumptions C13_reson_comb_instances.
